@@ -2,8 +2,8 @@
 // Each item is an ASSUMPTION (reported in evidence.trusted_base).  The rewrite rule that routes the
 // real call to the shim is named next to it (DESIGN 2.1).
 
-spec fn ascending(s: Seq<u64>) -> bool { forall|i: int, j: int| 0 <= i < j < s.len() ==> s[i] < s[j] }
-spec fn sorted(s: Seq<u64>) -> bool { forall|i: int, j: int| 0 <= i <= j < s.len() ==> s[i] <= s[j] }
+pub open spec fn ascending(s: Seq<u64>) -> bool { forall|i: int, j: int| 0 <= i < j < s.len() ==> s[i] < s[j] }
+pub open spec fn sorted(s: Seq<u64>) -> bool { forall|i: int, j: int| 0 <= i <= j < s.len() ==> s[i] <= s[j] }
 
 // rule R3: `M.keys().cloned().collect()`  — BTreeMap::keys yields the keys in ascending order
 #[verifier::external_body]
@@ -34,13 +34,7 @@ fn entry_or_new(m: &mut BTreeMap<u64, Vec<PageID>>, k: u64) -> (r: &mut Vec<Page
 pub assume_specification<T: Clone> [<[T]>::to_vec] (s: &[T]) -> (r: Vec<T>)
     ensures r@ == s@;
 
-// rule R7: `V.sort_unstable()` on a Vec<u64> (Verus has no DerefMut Vec -> slice)
-#[verifier::external_body]
-fn vec_sort_unstable(v: &mut Vec<u64>)
-    ensures sorted(final(v)@), final(v)@.to_multiset() == old(v)@.to_multiset(),
-{
-    v.sort_unstable()
-}
+//@include prelude/sortv.rs
 
 // Rust allocation limit: a Vec<u64> never holds more than isize::MAX bytes
 #[verifier::external_body]
